@@ -428,7 +428,7 @@ class ExprMixin:
                                 merged = mk_bool(z3.And(a.z, pv.z) if is_and else z3.Or(a.z, pv.z))
                             else:
                                 merged = ite(cont, pv, a)
-                            yield st1, merged
+                            yield self._carry_facts(st1, info, st_guard, cont), merged
                             continue
                         except EngineError:
                             pass
@@ -445,6 +445,19 @@ class ExprMixin:
                 if self.feasible(st_stop):
                     yield st_stop, a
         yield from go(0, st)
+
+    @staticmethod
+    def _carry_facts(base: State, evaluated: State, guarded: State, guard) -> State:
+        """Facts learnt while evaluating an operand under `guard` (contract postconditions, definitions of fresh
+        arrays, well-formedness of values read) stay available after the merge, conditioned on the guard."""
+        new = evaluated.pc[len(guarded.pc):]
+        out = base
+        for f in new:
+            out = out.assume(z3.Implies(guard, f))
+        if evaluated.ghost.get("$clock") is not None and evaluated.ghost.get("$clock") is not base.ghost.get("$clock"):
+            out = out.fork()
+            out.ghost["$clock"] = evaluated.ghost["$clock"]
+        return out
 
     def opq_may_raise(self, st, what):
         """Operations on values of unknown type run user code: under `opaque_raise` they may raise anything."""
@@ -504,7 +517,10 @@ class ExprMixin:
                 pb, ib = self.ev_pure(e.orelse, st_f)
                 if pa is not None and pb is not None and isinstance(pa, V) and isinstance(pb, V):
                     try:
-                        yield st1, ite(tc, pa, pb)
+                        merged_ = ite(tc, pa, pb)
+                        s_m = self._carry_facts(st1, ia, st_t, tc)
+                        s_m = self._carry_facts(s_m, ib, st_f, z3.Not(tc))
+                        yield s_m, merged_
                         continue
                     except EngineError:
                         pass
